@@ -53,6 +53,7 @@ func run(c *vf.Ctx) {
 	// ---------------- (b) storage proofs (first: cheap, must not be starved by the exploration) ----------------
 	proofs(c)
 	leafIndexSweep(c)
+	proverSide(c)
 	// ---------------- (a) life cycles ----------------
 	variants := [][2]int{{2, 2}} // (D, K)
 	if !c.Quick() {
@@ -77,7 +78,7 @@ func run(c *vf.Ctx) {
 		}
 	}
 	c.RequireFeature("feature:v1_fc_proof", "feature:v1_fc_expire", "feature:v1_fc_revise", "feature:v2_fc_renew", "feature:v2_fc_proof", "feature:v2_fc_expire", "feature:v2_fc_revise",
-		"rule_attack_rejected", "rule_control_accepted", "leaf_index_checked", "proof_honest_accepted", "proof_pair_accepted", "proof_corrupt_rejected", "proof_era1", "proof_era2", "proof_era3", "proof_v2")
+		"rule_attack_rejected", "rule_control_accepted", "leaf_index_checked", "prover_proof_equals_tree_path", "proof_honest_accepted", "proof_pair_accepted", "proof_corrupt_rejected", "proof_era1", "proof_era2", "proof_era3", "proof_v2")
 	c.Sample(map[string]any{"part": "b", "era": "v1 era 3", "filesize": 129, "challenge_index": 2, "honest": "accepted", "other_leaf_1": "rejected"})
 }
 
@@ -673,6 +674,10 @@ func replay(c *vf.Ctx, raw json.RawMessage) {
 	}
 	if json.Unmarshal(raw, &part) == nil && part.Part == "leafindex" {
 		leafIndexSweep(c)
+		return
+	}
+	if part.Part == "prover" {
+		proverSide(c)
 		return
 	}
 	var pc proofCase
